@@ -3,6 +3,15 @@
 REGISTRY = {}
 SCHEMAS = {}
 LEMMAS = {}
+STATICS = {}        # name -> fn(repo) -> [(obligation name, bool, line, text)]: finite obligations decided by evaluation
+EXTERNALS = {}      # assumed contracts of library functions (numpy, ...): full name -> fn(ex, st, args, kwargs, node)
+
+
+def external(name):
+    def deco(fn):
+        EXTERNALS[name] = fn
+        return fn
+    return deco
 
 
 class LoopSpec:
@@ -16,7 +25,7 @@ class LoopSpec:
 class Contract:
     def __init__(self, qualname, params, requires=None, ensures=None, modifies=(), loops=(),
                  decreases=None, inline=False, lemmas=(), ghost=(), hints=(), configs=None,
-                 props=(), trusted=False, locals_types=None, raises=None, fresh=(), split=False, defs=None):
+                 props=(), trusted=False, locals_types=None, raises=None, fresh=(), split=False, defs=None, assumes=(), late_hints=()):
         self.qualname = qualname
         self.params = params              # ordered {name: type}
         self.requires = requires or (lambda v: [])
@@ -34,12 +43,21 @@ class Contract:
         self.locals_types = locals_types or {}
         self.raises = raises              # lambda v: condition under which raising is allowed
         self.fresh = list(fresh)
+        self.late_hints = list(late_hints)   # like hints, but processed after the lemmas of the same anchor
+        self.assumes = list(assumes)  # (anchor, lambda v, old: [(name, term)]) instances of assumed external contracts
         self.defs = defs              # lambda v: [(name, term)] definitional axioms of ghost functions
         self.split = split            # never merge the two arms of an `if` (one VC set per path)
 
 
-def contract(qualname, **kw):
+CALL_OVERRIDES = {}   # (caller qualname, callee qualname) -> Contract assumed at that caller's call sites
+
+
+def contract(qualname, at_caller=None, **kw):
     c = Contract(qualname, **kw)
+    if at_caller:
+        for caller in at_caller:
+            CALL_OVERRIDES[(caller, qualname)] = c
+        return c
     REGISTRY[qualname] = c
     return c
 
